@@ -20,6 +20,11 @@ func evalC15(p prog.Program) Outcome {
 	out := Outcome{Fail: res.Fail, Hist: res.Hist, Ev: res.Ev}
 	if res.Fail == nil {
 		out.NonTrivial = res.Ev["undo_redo_executed"] > 0 && (res.Ev["concurrent_pairs"] > 0 || res.Ev["client_gc_purged"] > 0)
+		if p.Cfg.Flags["serial"] == 1 {
+			out.Ev["serial_stratum"] = 1
+			// no concurrency by construction: non-trivial = an undo/redo ran on a multi-client history
+			out.NonTrivial = res.Ev["undo_redo_executed"] > 0
+		}
 	}
 	return out
 }
@@ -32,7 +37,39 @@ func genC15() *rapid.Generator[prog.Program] {
 		MinClients: 2, MaxClients: pick(3, 4), MaxSteps: pick(24, 40),
 		Kinds: c15Kinds, SchedOps: []string{"undo", "undo", "undo", "redo", "redo", "round", "round"}, SyncWeight: 6, OfflineBias: true,
 	})
+	// Serial multi-writer stratum: every change (edit, undo, redo) is delivered
+	// to every replica before the next one is made, so there is no concurrency
+	// and the F10/F11 exclusion does not apply: every client edits the same
+	// text/tree/array and undoes/redoes entries whose content peers have since
+	// changed; updates with several operations in one change ("multi").
+	serialOps := append(prog.Ops(c15Kinds...), "multi", "multi", "multi", "multi", "tedit", "tedit")
+	serial := prog.Gen(prog.GenOpts{
+		MinClients: 2, MaxClients: 3, MaxSteps: pick(20, 32),
+		EditOps: serialOps, SchedOps: []string{"undo", "undo", "undo", "undo", "redo", "redo", "round"}, SyncWeight: 1,
+	})
 	return rapid.Custom(func(t *rapid.T) prog.Program {
+		if rapid.IntRange(0, 3).Draw(t, "serial") == 0 {
+			p := serial.Draw(t, "p")
+			p.Steps = append(append([]prog.Step{}, c15Base...), p.Steps...)
+			// directed episodes: X makes a multi-operation update that starts
+			// with a text insertion; Y deletes around that position; X undoes
+			// (part of what its entry reverses is gone already) and maybe redoes
+			for e := rapid.IntRange(0, 3).Draw(t, "episodes"); e > 0; e-- {
+				x := rapid.IntRange(0, p.Cfg.N-1).Draw(t, "x")
+				y := (x + 1 + rapid.IntRange(0, p.Cfg.N-2).Draw(t, "y")) % p.Cfg.N
+				a := 2 * rapid.IntRange(0, 3).Draw(t, "a")
+				p.Steps = append(p.Steps,
+					prog.Step{Who: x, Op: "multi", A: a, B: rapid.IntRange(0, 7).Draw(t, "b"), C: rapid.IntRange(0, 8).Draw(t, "c")},
+					prog.Step{Who: y, Op: "tedit", A: a, B: rapid.IntRange(1, 3).Draw(t, "len"), C: 6 * rapid.IntRange(0, 1).Draw(t, "c6")},
+					prog.Step{Who: x, Op: "undo"})
+				if rapid.Bool().Draw(t, "redo") {
+					p.Steps = append(p.Steps, prog.Step{Who: x, Op: "redo"})
+				}
+			}
+			p.Cfg.Flags = map[string]int{"serial": 1}
+			p.Cfg.ClientNoGC = rapid.IntRange(0, 2).Draw(t, "nogc") == 0
+			return p
+		}
 		p := base.Draw(t, "p")
 		if rapid.IntRange(0, 2).Draw(t, "gcthenundo") == 0 {
 			// Stratum "undo after everybody collected": a few edits, then
